@@ -45,6 +45,9 @@ type Case struct {
 	// StrayBackup: every shard directory holds a file "manual-copy.backup" (not named like the backups the
 	// shard writes), which makes every backup at idle unload report an error
 	StrayBackup bool `json:"strayBackup,omitempty"`
+	// DamagedFirst: the database file of the first shard is unreadable when the shard is first asked for (the
+	// request gets a clean error); the file is then taken away, and the shard must load like any other
+	DamagedFirst bool `json:"damagedFirst,omitempty"`
 	// RelativeRoot: the shard manager's root directory is given relative to the working directory, as in the
 	// shipped configurations ("./data")
 	RelativeRoot bool `json:"relativeRoot,omitempty"`
@@ -64,6 +67,7 @@ func genCase(t *rapid.T) Case {
 	c := Case{Collections: rapid.IntRange(1, 2).Draw(t, "cols"), Shards: rapid.IntRange(1, 2).Draw(t, "shards"),
 		IdleTimeout: rapid.SampledFrom([]int{0, 0, 0, 3600}).Draw(t, "timeout"), Backups: rapid.Bool().Draw(t, "backups")}
 	c.StrayBackup = c.Backups && rapid.IntRange(0, 2).Draw(t, "strayBackup") == 0
+	c.DamagedFirst = rapid.IntRange(0, 5).Draw(t, "damagedFirst") == 0
 	c.RelativeRoot = rapid.IntRange(0, 2).Draw(t, "relativeRoot") == 0
 	c.BlockedBackup = c.Backups && !c.StrayBackup && rapid.IntRange(0, 2).Draw(t, "blockedBackup") == 0
 	c.Ghost = rapid.IntRange(0, 3).Draw(t, "ghost") == 0
@@ -309,6 +313,24 @@ func execCase(c Case) (res vt.Result) {
 	shardOf := func(k int) (models.Collection, string) {
 		col := cols[k/c.Shards]
 		return col, col.ShardIds[k%c.Shards]
+	}
+	if c.DamagedFirst {
+		col, shardId := shardOf(0)
+		d := filepath.Join(root, cluster.USERCOLSDIR, col.UserId, col.Id, shardId)
+		os.MkdirAll(d, 0755)
+		os.WriteFile(filepath.Join(d, "sharddb.bbolt"), []byte(strings.Repeat("this is no database file ", 400)), 0644)
+		done := make(chan error, 1)
+		go func() { done <- sm.DoWithShard(col, shardId, func(s *shard.Shard) error { return nil }) }()
+		select {
+		case err := <-done:
+			if err == nil {
+				return vt.Result{Err: fmt.Errorf("a shard whose database file is unreadable was loaded without an error")}
+			}
+		case <-time.After(90 * time.Second):
+			return vt.Result{Err: fmt.Errorf("the request for a shard whose database file is unreadable does not return")}
+		}
+		os.Remove(filepath.Join(d, "sharddb.bbolt"))
+		rec.Count("cases_whose_first_shard_could_not_be_opened_at_first", 1)
 	}
 	checkInside := func(col models.Collection, shardId string, s *shard.Shard, when string) error {
 		if s == nil {
